@@ -262,6 +262,26 @@ macro_rules! def_modular {
             pairb(rep, "fb.monty.pow_bounded_exp", ul(fa.pow_bounded_exp(&ue, kb).as_montgomery()), ga.pow_bounded_exp(&bx(e), kb).as_montgomery(), L);
             pair(rep, TI, "ti.monty.PowBoundedExp", ul(crypto_bigint::PowBoundedExp::pow_bounded_exp(&fa, &ue, kb).as_montgomery()), ul(fa.pow_bounded_exp(&ue, kb).as_montgomery()));
             pair(rep, TI, "ti.monty.pow_eq_bounded_full", ul(fa.pow(&ue).as_montgomery()), ul(fa.pow_bounded_exp(&ue, 64 * L as u32).as_montgomery()));
+            // linear combinations: fixed vs boxed, trait vs inherent (values near m-1, full-width
+            // moduli take the multi-window path from two products on)
+            {
+                let m1 = u::<L>(m).wrapping_sub(&Uint::<L>::ONE);
+                let fm1 = MontyForm::new(&m1, p1);
+                let gm1 = BoxedMontyForm::new(bx(&ul(&m1)), bp1.clone());
+                let fterms = [(fa, fb_), (fm1, fm1), (fb_, fb_), (fa, fm1), (fm1, fb_), (fm1, fm1)];
+                let gterms = [(&ga, &gb), (&gm1, &gm1), (&gb, &gb), (&ga, &gm1), (&gm1, &gb), (&gm1, &gm1)];
+                let n = 1 + (c.s[1] as usize) % fterms.len();
+                let fr: Vec<(&MontyForm<L>, &MontyForm<L>)> = fterms[..n].iter().map(|t| (&t.0, &t.1)).collect();
+                let fl = MontyForm::<L>::lincomb_vartime(&fr);
+                let gl = BoxedMontyForm::lincomb_vartime(&gterms[..n]);
+                pairb(rep, "fb.monty.lincomb_vartime", ul(fl.as_montgomery()), gl.as_montgomery(), L);
+                pair(rep, TI, "ti.Monty::lincomb_vartime", ul(<MontyForm<L> as crypto_bigint::Monty>::lincomb_vartime(&fr).as_montgomery()), ul(fl.as_montgomery()));
+                let mut acc = fterms[0].0 * fterms[0].1;
+                for t in &fterms[1..n] {
+                    acc += t.0 * t.1;
+                }
+                pair(rep, TI, "ti.lincomb_eq_sum_of_products", ul(fl.as_montgomery()), ul(acc.as_montgomery()));
+            }
             // inversion routes
             let i1 = cct(ua.inv_odd_mod(&om)).map(|v| ul(&v));
             let i2 = ct(ba.inv_odd_mod(&odb(m))).map(|v| bl(&v));
